@@ -365,6 +365,10 @@ class Engine(Interp):
             if isinstance(raw, types.FunctionType):
                 return BoundSym(raw, obj)
             return raw
+        if isinstance(obj, SList) and attr == "maxlen":
+            return obj.maxlen
+        if isinstance(obj, TimerRec) and attr in ("daemon", "interval", "args", "function"):
+            return {"daemon": obj.daemon, "interval": obj.delay, "args": obj.args, "function": obj.fn}[attr]
         if isinstance(obj, (z3.ExprRef, SBytes, SList, SDict, TimerRec, Opaque)):
             return BoundSym(attr, obj)
         if isinstance(obj, (int, float, str, bytes, bytearray, tuple, frozenset, types.ModuleType, type, enum.Enum,
